@@ -209,6 +209,66 @@ fn answer(lib_role: Role, p1: &[u8], expect_digest: Option<[u8; 32]>, what: &str
     }
 }
 
+/// Two less usual uses of one handshake object: (a) the peer's packet 1 is derived from ours - a
+/// copy of the packet 1 we generated, with the peer's own valid digest stamped in the *other*
+/// scheme - and must be answered with a signed packet 2 like any digest-bearing packet 1; (b)
+/// packet 1 is generated again after a packet 1 has been answered, and must carry a valid digest
+/// like any packet 1 the library generates.
+fn derived_and_regenerated(lib_role: Role, seed: u64, out: &mut Out) {
+    out.eval(1);
+    let _g = install_fill(seed, None);
+    let ctx = || json!({"library_role": format!("{:?}", lib_role), "received_p1": "copy of the library's own packet 1 with the peer's valid digest stamped in the other scheme", "fill_seed": seed});
+    let r = lib_call(out, "Handshake::process_bytes", &ctx, || -> Result<(Vec<u8>, Result<HandshakeProcessResult, String>, Result<Vec<u8>, String>, [u8; 32]), String> {
+        let mut h = Handshake::new(peer_type(lib_role));
+        let own = h.generate_outbound_p0_and_p1().map_err(|e| format!("{:?}", e))?;
+        let mut copy = own[1..].to_vec();
+        let ours = sha::find_digest(&copy, &sha::role_p1_key(lib_role));
+        let scheme = match ours.first() {
+            Some((Scheme::At8, _, _)) => Scheme::At772,
+            _ => Scheme::At8,
+        };
+        let off = sha::digest_offset(&copy, scheme);
+        let d = sha::p1_digest(&copy, off, &sha::role_p1_key(other(lib_role)));
+        copy[off..off + 32].copy_from_slice(&d);
+        let mut input = vec![3u8];
+        input.extend_from_slice(&copy);
+        let answer = h.process_bytes(&input).map_err(|e| format!("{:?}", e));
+        let again = h.generate_outbound_p0_and_p1().map_err(|e| format!("{:?}", e));
+        Ok((copy, answer, again, d))
+    });
+    let (copy, answer, again, d) = match r {
+        Some(Ok(x)) => x,
+        Some(Err(e)) => {
+            out.violation("generate-p0-p1-fails", json!({"error": e}));
+            return;
+        }
+        None => return,
+    };
+    match answer {
+        Ok(HandshakeProcessResult::InProgress { response_bytes }) if response_bytes.len() >= PACKET => {
+            let p2 = &response_bytes[response_bytes.len() - PACKET..];
+            let want = sha::p2_signature(lib_role, &d, p2);
+            if p2[PACKET - 32..] != want[..] {
+                out.violation("p2-signature-invalid", json!({"note": if p2 == &copy[..] { "packet 2 is an echo" } else { "signature matches no known derivation" }, "context": ctx()}));
+                return;
+            }
+            out.count("p2_signatures_valid_for_packet_1_derived_from_ours", 1);
+        }
+        other_result => {
+            out.violation("packet-1-refused", json!({"result": format!("{:?}", other_result).chars().take(120).collect::<String>(), "context": ctx()}));
+            return;
+        }
+    }
+    // a refusal of the second generation is fine; a packet without a valid digest is not
+    if let Ok(b) = again {
+        if b.len() == 1 + PACKET && sha::find_digest(&b[1..], &sha::role_p1_key(lib_role)).is_empty() {
+            out.violation("own-p1-carries-no-valid-digest", json!({"note": "packet 1 generated again after a packet 1 had been answered", "context": ctx()}));
+            return;
+        }
+        out.count("own_p1_generated_again_after_answering", 1);
+    }
+}
+
 fn round(rng: &mut Rng, sums: &[usize], out: &mut Out) {
     for &sum in sums {
         for role in [Role::Client, Role::Server] {
@@ -245,6 +305,16 @@ fn round(rng: &mut Rng, sums: &[usize], out: &mut Out) {
                     let at = if rng.coin() { off + rng.usize(0, 31) } else { rng.usize(8, PACKET - 1) };
                     // the selector bytes move the digest: keep them (another offset could hit a valid digest only with probability 2^-256 anyway)
                     bad[at] ^= 1 << rng.below(8);
+                    if rng.chance(1, 3) {
+                        // instead: the same bit wrong in two different 32-bit words of the digest
+                        // (differences that cancel when folded together)
+                        bad = p1.clone();
+                        let (w1, w2) = (rng.usize(0, 7), rng.usize(0, 6));
+                        let w2 = if w2 >= w1 { w2 + 1 } else { w2 };
+                        let (byte, mask) = (rng.usize(0, 3), 1u8 << rng.below(8));
+                        bad[off + 4 * w1 + byte] ^= mask;
+                        bad[off + 4 * w2 + byte] ^= mask;
+                    }
                     if sha::find_digest(&bad, &sha::role_p1_key(sender)).is_empty() {
                         out.count("received_p1_with_near_miss_digest", 1);
                         answer(other(sender), &bad, None, &format!("near-miss: valid {:?} packet with bit flipped at byte {} (digest at {})", scheme, at, off), rng.next(), rng.coin(), out);
@@ -331,6 +401,9 @@ impl Check for C11 {
             let lib_role = if rng.coin() { Role::Client } else { Role::Server };
             answer(lib_role, &p1, None, kind, rng.next(), rng.coin(), out);
         }
+        for i in 0..10 {
+            derived_and_regenerated(if i % 2 == 0 { Role::Client } else { Role::Server }, rng.next(), out);
+        }
         for _ in 0..200 {
             let role = if rng.coin() { Role::Client } else { Role::Server };
             own_p1(role, None, 0, out);
@@ -338,7 +411,7 @@ impl Check for C11 {
         }
     }
     fn rule(&self) -> String {
-        "enumeration of every selector-byte sum 0..=1020 (all 728 digest offsets, both sums where a residue has two) x {own packet 1 as client, as server (via the deterministic fill hook); received packet 1 built by the reference, keyed as client -> library server and keyed as server -> library client, digest placed by scheme at-8 and by scheme at-772; a third of them with unusual time/version fields (all zero, all ones, random) and the digest recomputed; a quarter additionally as a near-miss with one bit flipped inside or outside the digest, which must be answered by an echo}, remaining bytes seeded-random, repeated for up to 32 (quick) / 3200 (thorough) fillings (the first two always); plus digest-less packet 1s (zero version, non-zero version, random, digest keyed for the wrong role) and packets generated with the library's own RNG; in every eighth of these cases the handshake objects are first used 2-3 ms after they were created (injected delay), for one selector sum of the enumeration and one packet of each digest-less kind. A third of the received packet 1s arrive together with the first 1-1535 bytes of a packet 2, a sixth split over two calls. Every digest, signature and echo is recomputed with the independent SHA-256/HMAC. distinct = (own/received, role, scheme, offset) combinations observed.".to_string()
+        "enumeration of every selector-byte sum 0..=1020 (all 728 digest offsets, both sums where a residue has two) x {own packet 1 as client, as server (via the deterministic fill hook); received packet 1 built by the reference, keyed as client -> library server and keyed as server -> library client, digest placed by scheme at-8 and by scheme at-772; a third of them with unusual time/version fields (all zero, all ones, random) and the digest recomputed; a quarter additionally as a near-miss with one bit flipped inside or outside the digest, which must be answered by an echo}, remaining bytes seeded-random, repeated for up to 32 (quick) / 3200 (thorough) fillings (the first two always); plus digest-less packet 1s (zero version, non-zero version, random, digest keyed for the wrong role) and packets generated with the library's own RNG; in every eighth of these cases the handshake objects are first used 2-3 ms after they were created (injected delay), for one selector sum of the enumeration and one packet of each digest-less kind. Per case ten handshakes receive a packet 1 derived from the library's own (a copy with the peer's valid digest stamped in the other scheme: signed answer expected) and generate packet 1 a second time afterwards (valid digest expected unless refused); a third of the near-misses have the same bit wrong in two 32-bit words of the digest. A third of the received packet 1s arrive together with the first 1-1535 bytes of a packet 2, a sixth split over two calls. Every digest, signature and echo is recomputed with the independent SHA-256/HMAC. distinct = (own/received, role, scheme, offset) combinations observed.".to_string()
     }
     fn assumptions(&self) -> Vec<String> {
         vec![
